@@ -73,7 +73,12 @@ def run_dsop(w, s):
         if s.get("dim2") and s["dim2"] in m.dims and s["dim2"] in m.used():   # like dim: used by at least one variable
             sel[s["dim2"]] = dec_index(s["idx2"])
         form = s["form"]
-        if form == "axis":
+        if form == "tuple":
+            # a tuple of indices follows the order of the dataset's own dimensions
+            order = list(ds.dims)
+            tup = tuple(sel.get(d_, slice(None)) for d_ in order)
+            real = lambda: ds.take(indices=tup)
+        elif form == "axis":
             real = lambda: ds.take(indices=idx, axis=axis)
         elif form == "keepdims":
             real = lambda: ds.take(indices=idx, axis=axis, keepdims=True)
@@ -137,11 +142,14 @@ def run_dsop(w, s):
         if m.unused:
             raise Skip("derived datasets do not reproduce appended-but-unused axes")
         m2 = _perturbed_model(m)
+        if s.get("drop_key") and len(keys) >= 2:
+            del m2.vars[keys[-1]]           # the keys overlap only partly: the result holds the common variables
         ds2 = _guard(lambda: _real_from_model(m2))
         if ds2[0] != "ok":
             raise Skip("second dataset")
         ds2 = ds2[1]
         real = lambda: f(ds, ds2)
+        keys = [k for k in keys if k in m2.vars]
         for k in keys:
             per_var[k] = (lambda a, k=k: f(a, m2.array(k)))
     elif what in ("stack_ds", "concatenate_ds"):
